@@ -208,19 +208,51 @@ fn resp_fields(r: &Response) -> String {
     )
 }
 
+/// one limit field of an op line: `-` / `<n>` set explicitly; `d` left as the constructor made it;
+/// a leading `D` selects `Default::default()` instead of `new()` as the constructor (`D` alone: and left as made)
+#[derive(Clone, Copy)]
+struct Lim {
+    keep: bool,
+    dflt: bool,
+    v: Option<usize>,
+}
+impl From<Option<usize>> for Lim {
+    fn from(v: Option<usize>) -> Self {
+        Lim { keep: false, dflt: false, v }
+    }
+}
+fn lim(s: &str) -> Option<Lim> {
+    if s == "d" {
+        return Some(Lim { keep: true, dflt: false, v: None });
+    }
+    if let Some(rest) = s.strip_prefix('D') {
+        if rest.is_empty() {
+            return Some(Lim { keep: true, dflt: true, v: None });
+        }
+        return opt_nat(rest).map(|v| Lim { keep: false, dflt: true, v });
+    }
+    opt_nat(s).map(Lim::from)
+}
+
 #[derive(Clone, Copy)]
 struct ReqCfg {
-    rl: Option<usize>,
-    hl: Option<usize>,
-    max: Option<usize>,
+    rl: Lim,
+    hl: Lim,
+    max: Lim,
 }
 
 /// the documented calling protocol; returns (text, Some(request) when complete)
 fn run_req(cfg: ReqCfg, ds: &[Vec<u8>]) -> (String, Option<Request>) {
-    let mut r = Request::new();
-    r.request_line_limit = cfg.rl;
-    r.headers.set_line_limit(cfg.hl);
-    r.max_message_size = cfg.max;
+    let mut r = if cfg.rl.dflt || cfg.hl.dflt || cfg.max.dflt { Request::default() } else { Request::new() };
+    if !cfg.rl.keep {
+        r.request_line_limit = cfg.rl.v;
+    }
+    if !cfg.hl.keep {
+        r.headers.set_line_limit(cfg.hl.v);
+    }
+    if !cfg.max.keep {
+        r.max_message_size = cfg.max.v;
+    }
     let mut buf: Vec<u8> = Vec::new();
     let mut acc: Vec<String> = vec![];
     let mut meters: Vec<String> = vec![];
@@ -258,9 +290,11 @@ fn run_req(cfg: ReqCfg, ds: &[Vec<u8>]) -> (String, Option<Request>) {
     )
 }
 
-fn run_resp(hl: Option<usize>, ds: &[Vec<u8>]) -> (String, Option<Response>) {
-    let mut r = Response::new();
-    r.headers.set_line_limit(hl);
+fn run_resp(hl: Lim, ds: &[Vec<u8>]) -> (String, Option<Response>) {
+    let mut r = if hl.dflt { Response::default() } else { Response::new() };
+    if !hl.keep {
+        r.headers.set_line_limit(hl.v);
+    }
     let mut buf: Vec<u8> = Vec::new();
     let mut acc: Vec<String> = vec![];
     let mut meters: Vec<String> = vec![];
@@ -321,15 +355,15 @@ fn single(kind: &str, x: &[u8]) -> String {
 
 fn exec(t: &[&str]) -> String {
     match t {
-        ["REQ", _tree, _ov, rl, hl, mx, ds] => match (opt_nat(rl), opt_nat(hl), opt_nat(mx), deliveries(ds)) {
+        ["REQ", _tree, _ov, rl, hl, mx, ds] => match (lim(rl), lim(hl), lim(mx), deliveries(ds)) {
             (Some(rl), Some(hl), Some(max), Some(ds)) => run_req(ReqCfg { rl, hl, max }, &ds).0,
             _ => "bad-op".into(),
         },
-        ["RESP", _tree, _ov, hl, ds] => match (opt_nat(hl), deliveries(ds)) {
+        ["RESP", _tree, _ov, hl, ds] => match (lim(hl), deliveries(ds)) {
             (Some(hl), Some(ds)) => run_resp(hl, &ds).0,
             _ => "bad-op".into(),
         },
-        ["RTREQ", _tree, _ov, rl, hl, mx, ds] => match (opt_nat(rl), opt_nat(hl), opt_nat(mx), deliveries(ds)) {
+        ["RTREQ", _tree, _ov, rl, hl, mx, ds] => match (lim(rl), lim(hl), lim(mx), deliveries(ds)) {
             (Some(rl), Some(hl), Some(max), Some(ds)) => {
                 let cfg = ReqCfg { rl, hl, max };
                 let (first, r) = run_req(cfg, &ds);
@@ -347,7 +381,7 @@ fn exec(t: &[&str]) -> String {
             },
             _ => "bad-op".into(),
         },
-        ["RTRESP", _tree, _ov, hl, ds] => match (opt_nat(hl), deliveries(ds)) {
+        ["RTRESP", _tree, _ov, hl, ds] => match (lim(hl), deliveries(ds)) {
             (Some(hl), Some(ds)) => {
                 let (first, r) = run_resp(hl, &ds);
                 match r {
@@ -422,7 +456,7 @@ fn exec(t: &[&str]) -> String {
                     match bytes {
                         None => format!("{} || {}", shown, g1),
                         Some(b) => {
-                            let (p, r2) = run_req(ReqCfg { rl: None, hl, max: None }, &[b]);
+                            let (p, r2) = run_req(ReqCfg { rl: None.into(), hl: hl.into(), max: None.into() }, &[b]);
                             match r2 {
                                 None => format!("{} || {} || {}", shown, g1, p),
                                 Some(r2) => {
@@ -451,7 +485,7 @@ fn exec(t: &[&str]) -> String {
                     match bytes {
                         None => format!("V || {}", g1),
                         Some(b) => {
-                            let (p, r2) = run_resp(hl, &[b]);
+                            let (p, r2) = run_resp(hl.into(), &[b]);
                             match r2 {
                                 None => format!("V || {} || {}", g1, p),
                                 Some(r2) => {
